@@ -72,7 +72,11 @@ func runIsolated(c corr.Case) corr.Result {
 		if at < len(c.Lines) {
 			op = c.Lines[at]
 		}
-		res.Hits = append(res.Hits, corr.Hit{Key: "C02:crash:" + crashKind(msg),
+		key := "C02:crash:" + crashKind(msg)
+		if strings.Contains(msg, "concurrent map") {
+			key = "C02:concurrency:concurrent-map-access"
+		}
+		res.Hits = append(res.Hits, corr.Hit{Key: key,
 			What: fmt.Sprintf("the Go runtime aborted the process during `%s` (op %d of the script): %s", op, at, msg)})
 		for len(res.Outs) < len(c.Lines) {
 			res.Outs = append(res.Outs, "crashed")
